@@ -255,24 +255,19 @@ class DAGRunConcurrentManager(DAGRunManagerLike):
                 u - Node
                 v - Node Edge
             """
-            return not self.dag.graph.edges[u, v].get(EdgeField.case_branch)
+            if self.dag.graph.edges[u, v].get(EdgeField.case_branch):
+                return False
 
-        def _filter_node(u: str) -> bool:
-            """
-            Delete nodes with NodeField.is_oneof_child from subgraph_view
-
-            Args:
-                u -  Node
-            """
-            # A OneOf candidate is a part of its own subgraph only. If it were visible in the other subgraphs
-            # after its start, they would execute its (possibly failed) nodes or take its contained errors for theirs.
-            return (
-                not self.dag.graph.nodes[u].get(NodeField.is_oneof_child)
-                or (is_oneof and u == dest)
+            # A OneOf candidate is started by its OneOf only: the edge from the candidate to the head of the OneOf is
+            # not a dependency of any subgraph. The candidate itself stays visible for the nodes that use it in
+            # another way (as a regular input, as a case of a switch, as a candidate of another OneOf).
+            return not (
+                self._is_head_of_oneof(v)
+                and u in self.dag.graph.nodes[v][NodeField.oneof_nodes]
             )
 
         return get_connected_subgraph(
-            dag=nx.subgraph_view(self.dag.graph, filter_edge=_filter, filter_node=_filter_node),
+            dag=nx.subgraph_view(self.dag.graph, filter_edge=_filter),
             source=source,
             dest=dest,
             is_recurrent=is_recurrent,
@@ -450,6 +445,12 @@ class DAGRunConcurrentManager(DAGRunManagerLike):
                 if self._is_head_of_oneof(node_id) or dag.is_recurrent
                 else self.dag.graph.predecessors(node_id),
             )
+
+            if self._is_head_of_oneof(node_id):
+                # The candidates are started by the OneOf itself. They are not dependencies of its head even if
+                # they are a part of the current dag for another reason.
+                candidates = self.dag.graph.nodes[node_id][NodeField.oneof_nodes]
+                predecessors = [pred_node_id for pred_node_id in predecessors if pred_node_id not in candidates]
 
         for idx, node_id in enumerate(predecessors):
 
